@@ -30,12 +30,12 @@ ASSUMPTIONS = [
     "steps must raise LenaValueError at construction; integral floats such as 2.0 are outside the alphabet",
     "fill_into is checked for non-negative arguments only (negative ones are documented as unsupported)",
 ]
-NONTRIVIAL_FLOOR = {"quick": 5000, "thorough": 20000}
+NONTRIVIAL_FLOOR = {"quick": 5000, "thorough": 100000}
 
 
 def _dom(tier):
     if tier == "thorough":
-        return dict(B=9, S=5, L=13, H=8)
+        return dict(B=12, S=6, L=22, H=8)
     return dict(B=7, S=4, L=10, H=6)
 
 
